@@ -19,9 +19,16 @@ RULES = [
     {},
     {'type': 'method_call'},
     {'destination': 'org.freedesktop.DBus'},
+    # constraints on the first argument: the empty string is a value like
+    # any other
+    {'arg0': ''},
+    {'arg0': 'payload-5'},
+    {'type': 'signal', 'interface': 'a.b', 'arg0': ''},
 ]
 RULE_TEXT = ["type='signal',interface='a.b'", "path_namespace='/x'", "",
-             "type='method_call'", "destination='org.freedesktop.DBus'"]
+             "type='method_call'", "destination='org.freedesktop.DBus'",
+             "arg0=''", "arg0='payload-5'",
+             "type='signal',interface='a.b',arg0=''"]
 
 # message templates: (type, destination kind, forged sender kind, flags,
 #                     extra fields)
@@ -54,6 +61,9 @@ TEMPLATES = [
     (1, 'bus', 'absent', 0, {'path': '/org/freedesktop/DBus',
                              'member': 'Hello',
                              'interface': 'org.freedesktop.DBus'}),
+    # a broadcast whose first argument is the empty string
+    (4, 'broadcast', 'absent', 0, {'path': '/s', 'member': 'E',
+                                   'interface': 'a.b'}),
 ]
 
 
@@ -149,7 +159,7 @@ class RouteScenario(explore.Scenario):
         # byte still to be delivered
         w.sent_n += 1
         serial = 500 + 4 * ti + c
-        body = ['payload-%d' % ti]
+        body = ['payload-%d' % ti if ti != 16 else '']
         sig = 's'
         if ti % 3 == 1:
             # typed contents of variants (what a recipient written with
@@ -650,7 +660,9 @@ def run(ctx):
         'any step other than the consumption of its message is stray, which '
         'with first-in first-out consumption gives per-pair order). '
         'unique names: connect / disconnect / second Hello / calls to every '
-        'name ever issued, to depth %d. Long-lived bus: 254..257 / '
+        'name ever issued, to depth %d. One search uses rules on the first '
+        'argument (the empty string, a value) and a broadcast whose first '
+        'argument is empty. Long-lived bus: 254..257 / '
         '65534..65537 connections come and go between two that stay, then '
         'calls between those; messages of 2**16, 2**27-8 and exactly 2**27 '
         'bytes handed on' % (len(TEMPLATES),
@@ -676,6 +688,12 @@ def run(ctx):
                          'senders': [0]},
                         max_depth=7, max_dev=0,
                         label='broadcasts and match rules, depth 7')
+        explore.explore(ctx, RouteScenario,
+                        {'templates': [5, 16, 10], 'max_queue': 1,
+                         'senders': [0], 'rules': (5, 6, 7)},
+                        max_depth=6, max_dev=0,
+                        label='broadcasts under first-argument rules '
+                              '(empty string, a value), depth 6')
         explore.explore(ctx, RouteScenario,
                         {'templates': [1, 3], 'max_queue': 1, 'senders': [0],
                          'waiters': True},
@@ -738,6 +756,13 @@ def run(ctx):
                         max_depth=7, max_dev=0,
                         label='client 2 never says Hello, depth 7',
                         max_states=200000)
+        explore.explore(ctx, RouteScenario,
+                        {'templates': [5, 16, 10, 6], 'max_queue': 1,
+                         'senders': [0], 'rules': (5, 6, 7)},
+                        max_depth=7, max_dev=0,
+                        label='broadcasts under first-argument rules '
+                              '(empty string, a value), depth 7',
+                        max_states=300000)
         explore.explore(ctx, NameScenario, {}, max_depth=7,
                         label='unique names, depth 7')
     from mcx import scale
